@@ -119,6 +119,18 @@ def run(ctx):
             raise AnalysisBroken("primitive::%s vanished (%d)" % (name, len(fs)))
         f = fs[0]
         sws = [n for n in f.walk() if n["k"] == "SwitchStmt"]
+        if not sws:
+            # no table of its own: the operator delegates to other operator functions. A delegation that applies a unary operator to one
+            # operand BEFORE the binary operator converts both to the common type computes that unary in the operand's own type
+            # (a - b as a + (-b): an unsigned int b is negated modulo 2^32 and only then widened to long / double) - not what C++ computes
+            inner = [c for c in f.walk() if is_call(c) and (callee(c) or "").startswith(P) and callee(c)[len(P):] in UNOPS
+                     and any(is_call(o) and (callee(o) or "").startswith(P) and callee(o)[len(P):] in BINOPS and any(x["i"] == c["i"] for a in call_args(o) for x in walk(a)) for o in f.walk())]
+            if inner and name in BINOPS:
+                R.ob("C14-R2", False, f.q, "table:operator computed in the common type of its operands", f.site(inner[0]),
+                     "%s(a, b) is computed as another operator applied to %s(operand): the inner operator acts in the operand's own type before the conversion to the common type "
+                     "(`10L - 3u` folds to 4294967303, C++: 7)" % (name, callee(inner[0])[len(P):]))
+                continue
+            raise AnalysisBroken("primitive::%s: no per-type table and no recognised delegation" % name)
         if len(sws) != 1:
             raise AnalysisBroken("primitive::%s: expected one switch" % name)
         sw = sws[0]
